@@ -133,7 +133,8 @@ end
 
 /-! ### canonical rendering -/
 
-def rList (ms : List String) : String := "[" ++ ",".intercalate (ms.map hex) ++ "]"
+/-- every message is written `m<hex>`: a list holding one empty message is not the empty list -/
+def rList (ms : List String) : String := "[" ++ ",".intercalate (ms.map (fun m => "m" ++ hex m)) ++ "]"
 
 def sortByKey {α : Type} (l : List (String × α)) : List (String × α) :=
   l.mergeSort (fun a b => !(b.1 < a.1))
@@ -170,10 +171,27 @@ def parseCfg (t : String) : Option Cfg :=
     if [a, b, c, d].all (fun x => x == '0' || x == '1') then some ⟨a == '1', b == '1', c == '1', d == '1'⟩ else none
   | _ => none
 
-def answer (c : Cfg) (e : Err) : String :=
+/-- the clause "a non-empty error never formats to an empty report" on the model's reports (a panic is not a report) -/
+def neModel (e : Err) (m : Reports) : Bool :=
+  (Spec.issuesOf e).isEmpty ||
+    ((m.flat.any (fun f => 0 < f.count)) && (m.tree.any (fun t => 0 < t.count)) && (m.fmt.any (fun f => 0 < f.count))
+      && (m.pretty.any (fun p => p != "")))
+
+/-- … and as the statement has it: with the library's own messages (`dm`) unconditionally; with a user-supplied
+    mapper / formatter unless the error is one root issue with an empty message (reading decision, notes/C19.md;
+    Gozod.C19.c19_go_nonempty, c19_go_prettify_empty_iff relate this to `prettifyGo`) -/
+def neSpec (dm : Bool) (e : Err) : Bool :=
+  dm || match Spec.issuesOf e with
+    | [i] => !(i.path.isEmpty && i.msg == "")
+    | _ => true
+
+def bit (b : Bool) : String := if b then "1" else "0"
+
+def answer (c : Cfg) (dm : Bool) (e : Err) : String :=
   let m := reportsCfg c e
   let s := Spec.specReports e
-  report m.flat m.tree m.fmt m.pretty ++ "\t" ++ report (some s.1) (some s.2.1) (some s.2.2.1) (some s.2.2.2)
+  report m.flat m.tree m.fmt m.pretty ++ " ne=" ++ bit (neModel e m) ++ "\t"
+    ++ report (some s.1) (some s.2.1) (some s.2.2.1) (some s.2.2.2) ++ " ne=" ++ bit (neSpec dm e)
 
 def handle : List String → String
   | c :: ts =>
@@ -181,14 +199,19 @@ def handle : List String → String
     | none => "bad-op"
     | some c =>
       match ts with
-      | ["nil"] => answer c none
-      | n :: ts =>
-        match n.toNat? with
-        | none => "bad-op"
-        | some n =>
-          match parseIssues n ts with
-          | some (is, []) => answer c (some is)
-          | _ => "bad-op"
+      | d :: ts =>
+        if d != "dm=0" && d != "dm=1" then "bad-op" else
+        let dm := d == "dm=1"
+        match ts with
+        | ["nil"] => answer c dm none
+        | n :: ts =>
+          match n.toNat? with
+          | none => "bad-op"
+          | some n =>
+            match parseIssues n ts with
+            | some (is, []) => answer c dm (some is)
+            | _ => "bad-op"
+        | [] => "bad-op"
       | [] => "bad-op"
   | _ => "bad-op"
 
